@@ -267,6 +267,50 @@ func C19(r *h.Run) {
 			}
 		}
 	}
+	// ---- a relay: the unary handler hands the request it received to a downstream client (which
+	// stamps its own Spec on it) and panics afterwards: the panic is the handler's, it is recovered ----
+	for _, proto := range protos {
+		for _, downstream := range []string{"connect", "grpc"} {
+			cfg := envCfg{Proto: proto}
+			handled := 0
+			var dopts []connect.ClientOption
+			if downstream == "grpc" {
+				dopts = append(dopts, connect.WithGRPC())
+			}
+			dopts = append(dopts, connect.WithCodec(h.ToyCodec{}))
+			down := connect.NewClient[h.Raw, h.Raw](roundTripFunc(func(*http.Request) (*http.Response, error) { return nil, errors.New("downstream unreachable") }), "http://down.local/down.Svc/M", dopts...)
+			handler := connect.NewUnaryHandler("/verif.Svc/M", func(ctx context.Context, req *connect.Request[h.Raw]) (*connect.Response[h.Raw], error) {
+				_, _ = down.CallUnary(ctx, req)
+				panic("relay panics after forwarding")
+			}, connect.WithCodec(h.ToyCodec{}), connect.WithRecover(func(context.Context, connect.Spec, http.Header, any) error {
+				handled++
+				return connect.NewError(connect.CodeFailedPrecondition, errors.New("recovered"))
+			}))
+			b, ct := h.Frame(0, []byte("q")), cfg.contentType(false)
+			if proto == "connect" {
+				b, ct = []byte("q"), cfg.contentType(true)
+			}
+			req := httptest.NewRequest(http.MethodPost, "/verif.Svc/M", bytes.NewReader(b))
+			req.ProtoMajor, req.ProtoMinor = 2, 0
+			req.Header.Set("Content-Type", ct)
+			rec := httptest.NewRecorder()
+			escaped := safely(func() { handler.ServeHTTP(rec, req) })
+			in := map[string]any{"proto": proto, "kind": "unary", "handler": "passes the *Request it received to a " + downstream + " client's CallUnary, then panics"}
+			r.Eval("recover_relay", fmt.Sprint(proto, downstream))
+			peerKind := "server"
+			if proto == "connect" {
+				peerKind = "unary"
+			}
+			code, msg := peerError(proto, peerKind, rec)
+			r.Sample("recover_relay", map[string]any{"in": in, "peer_code": code, "recovery_function_calls": handled, "escaped": escaped != nil})
+			if escaped != nil {
+				r.Fail(h.Failure{Key: "recover/panic-escaped", Family: "recover_relay", What: "the panic of a handler that had forwarded its request escaped ServeHTTP", Input: in, Actual: fmt.Sprint(escaped)})
+			} else if handled != 1 || code != "failed_precondition" || msg != "recovered" {
+				r.Fail(h.Failure{Key: "recover/handle-calls", Family: "recover_relay", What: "the panic was not converted by exactly one call of the recovery function", Input: in, Actual: fmt.Sprint("calls=", handled, " peer sees ", code, ": ", msg)})
+			}
+		}
+	}
+
 	// ---- calls that OVERLAP on one handler: B enters and waits; A returns normally; then B
 	// panics. Whether a call panicked is that call's business: B is recovered ----
 	for _, proto := range protos {
